@@ -248,6 +248,11 @@ def main(argv):
                if i.get("vacuous_exits") and not i.get("live_exits") and not any(str(v).count(": loop ") for v in i.get("vacuous_exits"))}
     vacuous.update({n: [v for v in i.get("vacuous_exits") if ": loop " in str(v)] for n, i in fn_status.items()
                     if any(": loop " in str(v) for v in (i.get("vacuous_exits") or []))})
+    # a contract none of whose paths reaches an exit (normal or exceptional) proves nothing: every path died on a contradiction
+    for n, i in fn_status.items():
+        if i["status"] == "ok" and not i.get("live_exits") and not i.get("raises") and not i.get("vacuous_exits") \
+                and not any(o["function"] == n and o["result"] != "proved" for o in all_obls):
+            vacuous[n] = ["no path reaches an exit"]
     failed = {n: s for n, s in agg.items() if s != "proved"}
     missing = sorted(x for x in locked if x not in agg and x.split("/")[0] not in broken_fns)
     if a.update_lock:
